@@ -8,13 +8,23 @@
     operations keep "the first [length] cells of every column hold live values",
     which is what makes the reconstruction [Vec::from_raw_parts(ptr, length, cap)]
     sound, and dropping such a store drops nothing twice.
-    PARTIAL (carried by the correspondence, not by a theorem): allocation layouts
-    (size/alignment at release = at creation), capacity write-back after growth, the
-    packed row buffer offsets, and "all memory is returned" are audited on the real
-    code by the harness's global allocator after every operation and at the end of
-    every history; AddressSanitizer runs in the thorough tier. *)
+    (d) at the allocation level (Model/Heap.v) a store of any number of columns
+    sharing one heap, each kept as raw parts (address, capacity) next to a length
+    and rebuilt around every call, under every history of push / reserve /
+    shrink_to_fit / set_len / free and for every answer of the growth oracle:
+    every rebuild finds a live block of the right element type and of exactly
+    the capacity passed (so every release and resize uses the creation layout),
+    no block is released twice, no two columns share a block, every block has an
+    owner, and releasing every column leaves the heap empty — given that pointer
+    and capacity are stored back after each capacity-changing call, which is read
+    off the source on every run (Gen/Facts.v [fact_wb_*], one per call site) and
+    shown necessary by three refuting histories.
+    PARTIAL (carried by the correspondence, not by a theorem): the size/alignment
+    of the concrete component types, the packed row buffer offsets and the
+    identifier buffers are audited on the real code by the harness's global
+    allocator after every operation and at the end of every history. *)
 From Brood Require Import Base World Multi Spec Kinds Tables Sched Query SerdeC Phys
-  BaseFacts Inv StepInv QueryFacts SerdeL SerdeCFacts PhysFacts.
+  BaseFacts Inv StepInv QueryFacts SerdeL SerdeCFacts PhysFacts Heap HeapFacts ColsFacts.
 
 Theorem C05_unchecked_accesses : forall n res ops, run (empty_world n res) ops <> None.
 Proof. intros n res ops. exact (run_safe ops (empty_world n res) (empty_world_inv n res)). Qed.
@@ -66,3 +76,32 @@ Print Assumptions C05_clear_keeps_clean.
 Theorem C05_drop_clean : forall a f, Clean a -> double_drops (fst (p_drop_arch a f)) = [].
 Proof. intros a f H. exact (drop_clean_no_double a f H). Qed.
 Print Assumptions C05_drop_clean.
+
+
+(** allocation level: every history of column operations, with the write-backs the source performs *)
+Theorem C05_columns_never_misuse_the_heap : forall ops,
+  exists s', crun wb_push wb_reserve wb_shrink cinit ops = Some s' /\ CInv s'.
+Proof. exact columns_safe_src. Qed.
+Check (C05_columns_never_misuse_the_heap : forall ops,
+  exists s', crun wb_push wb_reserve wb_shrink cinit ops = Some s' /\ CInv s').
+Print Assumptions C05_columns_never_misuse_the_heap.
+
+Theorem C05_columns_from : forall s ops, CInv s -> exists s', crun true true true s ops = Some s' /\ CInv s'.
+Proof. intros s ops H. exact (crun_inv ops s H). Qed.
+Print Assumptions C05_columns_from.
+
+(** all memory obtained is returned once every column has been released *)
+Theorem C05_all_memory_returned : forall s, CInv s -> exists s', free_all s = Some s' /\ hp_blocks (fst s') = [].
+Proof. exact free_all_returns_everything. Qed.
+Check (C05_all_memory_returned : forall s, CInv s -> exists s', free_all s = Some s' /\ hp_blocks (fst s') = []).
+Print Assumptions C05_all_memory_returned.
+
+(** each write-back is necessary: dropping it reaches the UB outcome (stale pointer or capacity) *)
+Theorem C05_writeback_needed :
+  crun false true true cinit stale_push = None /\ crun true false true cinit stale_reserve = None /\
+  crun true true false cinit stale_shrink = None.
+Proof. exact (conj wb_push_needed (conj wb_reserve_needed wb_shrink_needed)). Qed.
+Print Assumptions C05_writeback_needed.
+
+Example C05_columns_nonvacuous : exists s', crun wb_push wb_reserve wb_shrink cinit stale_shrink = Some s' /\ hp_blocks (fst s') = [].
+Proof. vm_compute. eexists. split; reflexivity. Qed.
